@@ -195,7 +195,7 @@ CHECK_DEADLOCK FALSE
     acc, rej, st, tr = tlc.validate_traces("RetryingTrace", tl)
     rep.set("traces_validated_against_impl", len(tl))
     rep.set("trace_states", st)
-    for i, (pos, clauses) in sorted(rej.items()):
+    for i, pos, clauses in ((i, p, c) for i, lst in sorted(rej.items()) for p, c in lst[:1]):
         t = traces[i]
         ev = t["ev"][pos - 1] if pos <= len(t["ev"]) else {"e": "<end>"}
         rep.violation(f"C17/{ev['e']}/{clauses}",
